@@ -61,6 +61,12 @@ CHECKS = {
         text='Every segment of the stated grids has its bbox() compared side by side with the exact extrema of its coordinate polynomials (Sturm root isolation over Q on the float control values), resp. the analytic extrema of the stored ellipse arc; tightness 1e-9*size implies containment, which is also checked on a 129-point grid of the real point().',
         note='Trusted: mc/exact.py root isolation. Exhaustive over the grids only.',
         design='4/C08'),
+    'C04': dict(
+        level='exploration',
+        technique='bounded-exhaustive enumeration of arc constructor parameters (chord direction x length x radius pool incl. the float neighbourhood of the exact fit x rotation pool x flags, plus arcs built from a known centre incl. spans 180 +- tiny), against an independent implementation of W3C F.6.5/F.6.6',
+        text='Every arc of the grids is constructed by the real Arc and compared with the independent endpoint-to-centre conversion: radii rule (exactly unchanged / minimally enlarged), end points, centre, every sampled point on the stored ellipse, monotone eccentric angle in the sweep direction, span vs large_arc, derivative orders 1..5 against the analytic derivative and finite differences of point, approximations start/end/contiguity. All 24 region classes (Lambda region x flags x axis-aligned/rotated) must be hit.',
+        note='Trusted: mc/refgeom.arc_center_params (math only). Grid only.',
+        design='4/C04'),
 }
 
 NOT_YET = {}
